@@ -129,6 +129,19 @@ def outcomeJson : Outcome → Json
 def entryJson (P : Prog) (e : Entry) : Json :=
   Json.arr #[ofStr (P.spec e.screen).name, ofOptNat e.args, Json.bool e.modal]
 
+/-- decidable history hypotheses evaluated on the model's trace (oldest first) -/
+def historyFlags (tr : List Tr) : List String :=
+  let k1a := tr.any fun t => match t with | .closeReq false _ => true | .openLevel _ false => true | _ => false
+  -- WFDrain: no level is closed while an earlier close has not yet been followed by the return of its activation
+  let k1b := (tr.foldl (fun (st : Bool × Bool) t =>
+      match t with
+      | .closeLevel _ => if st.1 then (true, true) else (true, st.2)
+      | .loopReturn _ => (false, st.2)
+      | _ => st) (false, false)).2
+  let k2 := tr.any fun t => match t with | .closeReq _ n => n > 0 | _ => false
+  let fq := tr.any fun t => match t with | .forceQuit => true | _ => false
+  (if k1a || k1b then ["K1"] else []) ++ (if k2 then ["K2"] else []) ++ (if fq then ["forceQuit"] else [])
+
 def opMachine (j : Json) : Except String Json := do
   let cc ← charClass (← field j "cc")
   let screens ← (← arr (← field j "screens")).mapM screenOf
@@ -168,6 +181,7 @@ def opMachine (j : Json) : Except String Json := do
     ("log", Json.arr (c.log.reverse.map evJson).toArray),
     ("out", Json.str (String.ofList c.A.out.flatten)),
     ("stack", Json.arr (c.A.stack.reverse.map (entryJson P)).toArray),
-    ("depth", Json.num c.L.levels.length)])
+    ("depth", Json.num c.L.levels.length),
+    ("flags", Json.arr ((historyFlags c.tr.reverse).map Json.str).toArray)])
 
 end Driver
